@@ -56,6 +56,8 @@ def gen_cases(rng, tier, info):
     for i in range(0, len(api), 50):
         cases.append(Case("api-%d" % i, ["(time_rt %d)" % t for t in api[i:i + 50]]))
     info.update({"times": len(ts), "ticks": len(ks), "api_roundtrips": len(api)})
+    from props import c10
+    cases += c10.long_cases(tier)
     return cases
 
 
@@ -66,9 +68,18 @@ def nontrivial(case):
 def oracle(ctx):
     """the property itself, evaluated on the implementation's outputs"""
     bad = []
+    # creation times through a real save / reopen, with the FILETIME at every position relative to the stream buffer
+    from props import c10
+    import types
+    pk = [(c, o) for c, o in zip(ctx.cases, ctx.impl_out) if "long" in c.tags]
+    if pk:
+        sub = types.SimpleNamespace(cases=[c for c, _ in pk], impl_out=[o for _, o in pk], model_out=[o for _, o in pk],
+                                    run_impl=ctx.run_impl, run_model=ctx.run_model, profile=ctx.profile, tier=ctx.tier, Case=ctx.Case)
+        bad += c10.oracle(sub)
+    ctx_cases = [(c, o) for c, o in zip(ctx.cases, ctx.impl_out) if "long" not in c.tags]
     pairs = []           # (t, from_time t) for monotonicity
     rts = []
-    for c, outs in zip(ctx.cases, ctx.impl_out):
+    for c, outs in ctx_cases:
         for cmd, o in zip(c.cmds, outs):
             name, arg = cmd[1:-1].split()
             arg = int(arg)
